@@ -168,6 +168,13 @@ theorem absCond_of_lookup {σ : Facts} {e : Expr} {b : Bool} (h : σ.lookup e = 
 
 theorem truthy_bool (b : Bool) : truthy (.bool b) = b := rfl
 
+/-- where the interpreter states a truth value, it is the Python truth value -/
+theorem truthOf_ok {v : Val} {t : Bool} (h : truthOf v = .ok t) : t = truthy v := by
+  unfold truthOf at h
+  split at h
+  · cases h
+  · cases h; rfl
+
 theorem absCond_sound {σ : Facts} {env : Env} (hc : Consistent σ env) :
     ∀ (e : Expr) (b : Bool) (v : Val), absCond σ e = some b → eval env e = .ok v → truthy v = b := by
   intro e
@@ -183,7 +190,10 @@ theorem absCond_sound {σ : Facts} {env : Env} (hc : Consistent σ env) :
       simp only [hl] at ha
       simp only [eval] at he
       obtain ⟨x, hx, he⟩ := bind_ok he
+      obtain ⟨t, ht, he⟩ := bind_ok he
       cases he
+      have ht := truthOf_ok ht
+      subst ht
       cases ha' : absCond σ e with
       | none => simp [ha'] at ha
       | some b0 =>
@@ -200,6 +210,9 @@ theorem absCond_sound {σ : Facts} {env : Env} (hc : Consistent σ env) :
       simp only [hl] at ha
       simp only [eval] at he
       obtain ⟨x, hx, he⟩ := bind_ok he
+      obtain ⟨t, ht, he⟩ := bind_ok he
+      have ht := truthOf_ok ht
+      subst ht
       by_cases hx' : truthy x = true
       · simp only [hx', if_true] at he
         split at ha
@@ -226,6 +239,9 @@ theorem absCond_sound {σ : Facts} {env : Env} (hc : Consistent σ env) :
       simp only [hl] at ha
       simp only [eval] at he
       obtain ⟨x, hx, he⟩ := bind_ok he
+      obtain ⟨t, ht, he⟩ := bind_ok he
+      have ht := truthOf_ok ht
+      subst ht
       by_cases hx' : truthy x = true
       · simp only [hx', if_true] at he
         cases he
@@ -538,6 +554,9 @@ theorem absT_sound {A : Auto} (S : Sound A) : ∀ (t : Tpl) (σ : Facts) (env : 
   | .ite c thn els, σ, env, o, env', X, X', hc, hr, ha, hs => by
     simp only [render] at hr
     obtain ⟨v, hv, hr⟩ := bind_ok hr
+    obtain ⟨tv, htv, hr⟩ := bind_ok hr
+    have htv := truthOf_ok htv
+    subst htv
     simp only [absT] at ha
     by_cases ht : truthy v = true
     · simp only [ht, if_true] at hr
